@@ -8,6 +8,7 @@ import XotModel.Driver.Tree
 import XotModel.Driver.Compare
 import XotModel.Driver.Forest
 import XotModel.Driver.IdMap
+import XotModel.Driver.Axes
 
 open XotModel.Driver
 
@@ -18,6 +19,7 @@ def dispatch (st : DState) (line : String) : DState × String :=
   | "tree" :: rest => (st, (handleTree rest).getD "bad-request")
   | "cmp" :: rest => (st, (handleCmp st rest).getD "bad-request")
   | "idmap" :: rest => (handleIdMap st rest).getD (st, "bad-request")
+  | "axes" :: rest => (st, (handleAxes rest).getD "bad-request")
   | _ => (st, "bad-request")
 
 structure MState where
